@@ -32,7 +32,7 @@ def run(repo, rep, tier):
                    "D4 one evaluator block for L/B/R; wrappers pass own tables; tables never written; exact time arguments",
                    "D5 constant terms (A,0,0); R0[0] within the mean orbit"]
     rep.undecided = ["latitude and radius bounds", "monotone longitude / daily rate", "agreement with Kepler positions",
-                     "FK5 and aberration sizes", "1e-11 equality with direct summation"]
+                     "FK5 and aberration sizes", "floating-point rounding of the summation order (the identity is decided over the rationals)"]
     rep.assumptions = ["tables are read with ast.literal_eval from the current source"]
     rep.rule("R-TABLE-REL", "relation among literals, two-sided tolerance from the property (PROVED / REFUTED / INCONCLUSIVE)")
     n_rel = 0
@@ -92,6 +92,7 @@ def run(repo, rep, tier):
             rep.violation("R-TABLE-REL", "%s.VSOP87_R[0][0]" % p, "r0", "constant radius term %.5f AU outside the mean orbit %.5f..%.5f" % (r0, a * (1 - e), a * (1 + e)), obligation=True)
     rep.floor("table relations", n_rel, 30)
     evaluator_blocks(repo, rep)
+    direct_summation(repo, rep)
     wrappers = wrapper_audit(repo, rep)
     # the 17 wrappers only `return <evaluator>(...)` (R-ARGS), so they inherit the evaluators' verdict
     units.first_component_pos(repo, rep, [("Coordinates", "vsop_pos"), ("Coordinates", "geometric_vsop_pos"), ("Coordinates", "apparent_vsop_pos")])
@@ -146,6 +147,72 @@ def evaluator_blocks(repo, rep):
     else:
         rep.violation("R-SIB", "Coordinates.vsop_pos", "block-form", "series block is not 1e-8 * sum A*cos(B + C*t) with t in Julian millennia from J2000 "
                       "(scale ok=%s, cos terms=%d, time arg ok=%s)" % (ok_scale, len(cos_args), ok_t), obligation=True)
+
+
+def direct_summation(repo, rep):
+    """R-UNROLL: vsop_pos is executed on symbolic literal tables of every series count that occurs in the
+    package (loops over the literal unrolled) and the result is compared, as a polynomial identity over Q
+    with atomic cosines, with the direct sum 1e-8 * sum_i tau^i * sum_k A_ik cos(B_ik + C_ik tau)."""
+    from fractions import Fraction
+    from ..poly import Algebra
+    rep.rule("R-UNROLL", "evaluator executed on a symbolic table of each series count in use == direct term-by-term sum "
+                         "1e-8 * sum_i tau^i sum_k A cos(B + C tau), tau = (JDE - 2451545)/365250 (exact identity, every power of tau present)")
+    counts = set()
+    for p in PLANETS:
+        m = repo.mod(p)
+        for nm in ("VSOP87_L", "VSOP87_B", "VSOP87_R", "VSOP87_L_J2000", "VSOP87_B_J2000"):
+            if nm in m.globals:
+                try:
+                    counts.add(len(m.literal(nm)))
+                except Exception:
+                    pass
+    fn = repo.func("Coordinates", "vsop_pos")
+    names = [a.arg for a in fn.args.args]
+    tau = T.mul(T.num(Fraction(1, 365250)), T.add(T.sym("E"), T.num(-2451545)))
+
+    def table(tag, n):
+        rows = []
+        for i in range(n):
+            k_n = 2 if i in (0, n - 1) else 1
+            rows.append(("list",) + tuple(("list", T.sym("%sA%d_%d" % (tag, i, k)), T.sym("%sB%d_%d" % (tag, i, k)), T.sym("%sC%d_%d" % (tag, i, k)))
+                                          for k in range(k_n)))
+        return ("list",) + tuple(rows)
+
+    def direct(tag, n):
+        tot = []
+        for i in range(n):
+            k_n = 2 if i in (0, n - 1) else 1
+            for k in range(k_n):
+                a, b, c = (T.sym("%s%s%d_%d" % (tag, x, i, k)) for x in "ABC")
+                tot.append(T.mul(T.num(Fraction(1, 10 ** 8)), T.power(tau, T.num(i)), a, T.call("cos", T.add(b, T.mul(c, tau)))))
+        return T.add(*tot)
+    done = 0
+    for n in sorted(counts):
+        t = ret_term(repo, "Coordinates", "vsop_pos", unroll=12,
+                     arg_terms={names[0]: ("epoch", T.sym("E")), names[1]: table("L", n), names[2]: table("B", n), names[3]: table("R", n)})
+        if t[0] != "tuple" or len(t) != 4:
+            continue
+        got = {"L": radians_of_angle(t[1]), "B": radians_of_angle(t[2]), "R": t[3]}
+        for tag in "LBR":
+            site = "Coordinates.vsop_pos[%s, %d series]" % (tag, n)
+            g = got[tag]
+            if g is None or any(isinstance(x, tuple) and x and x[0] in ("loop", "loopout") for x in T.walk(g)):
+                rep.inconcl("R-UNROLL", site, "the evaluator could not be executed on a literal table (a loop was not unrolled)")
+                continue
+            alg = Algebra(atomize=True)
+            try:
+                same = alg.equal(g, direct(tag, n))
+            except Exception as e:      # NotAlgebraic
+                rep.inconcl("R-UNROLL", site, "result is not a polynomial in the table entries: %s" % str(e)[:80])
+                continue
+            done += 1
+            if same:
+                rep.ok("R-UNROLL", site, "== 1e-8 * sum_{i<%d} tau^i sum_k A cos(B + C tau) identically" % n, obligation=True, sample=(tag == "L"))
+            else:
+                rep.violation("R-UNROLL", "Coordinates.vsop_pos", "direct-sum:%s:%d" % (tag, n),
+                              "for a %s table with %d series the evaluator does not return the direct term-by-term sum "
+                              "1e-8 * sum_i tau^i sum_k A cos(B + C tau) (a series or a power of tau is lost or altered)" % (tag, n), obligation=True)
+    rep.floor("direct-summation identities decided", done, 3)
 
 
 def depends_t(cos_call):
